@@ -25,16 +25,19 @@ class Violation(Exception):
         self.detail = detail
 
 
-def DomainSpec(name, edge="pos", async_reset=False, reset_less=False):
-    return {"name": name, "edge": edge, "async_reset": bool(async_reset), "reset_less": bool(reset_less)}
+def DomainSpec(name, edge="pos", async_reset=False, reset_less=False, drive_rst=True):
+    """drive_rst=False: the domain has a reset that the design itself drives (e.g. ResetSynchronizer)."""
+    return {"name": name, "edge": edge, "async_reset": bool(async_reset), "reset_less": bool(reset_less),
+            "drive_rst": bool(drive_rst)}
 
 
 class Top(Elaboratable):
     """Wrapper: owns the ClockDomains, drives clk/rst from `bus`."""
-    def __init__(self, dut, domains, extra_submodules=()):
+    def __init__(self, dut, domains, extra_submodules=(), extra_lines=None):
         self.dut = dut
         self.specs = list(domains)
         self.extra = list(extra_submodules)
+        self.extra_lines = dict(extra_lines or {})   # name -> 1-bit Signal driven from the bus as well
         self.lines = []          # bus bit names, e.g. "sync.clk", "sync.rst"
         self.cds = {}
         for d in self.specs:
@@ -42,8 +45,9 @@ class Top(Elaboratable):
                              reset_less=d["reset_less"])
             self.cds[d["name"]] = cd
             self.lines.append(d["name"] + ".clk")
-            if not d["reset_less"]:
+            if not d["reset_less"] and d.get("drive_rst", True):
                 self.lines.append(d["name"] + ".rst")
+        self.lines.extend(self.extra_lines)
         self.bus = Signal(max(1, len(self.lines)), name="verif_bus")
 
     def elaborate(self, platform):
@@ -51,6 +55,9 @@ class Top(Elaboratable):
         for cd in self.cds.values():
             m.domains += cd
         for i, line in enumerate(self.lines):
+            if line in self.extra_lines:
+                m.d.comb += self.extra_lines[line].eq(self.bus[i])
+                continue
             name, kind = line.rsplit(".", 1)
             sig = self.cds[name].clk if kind == "clk" else self.cds[name].rst
             m.d.comb += sig.eq(self.bus[i])
@@ -64,8 +71,8 @@ class Top(Elaboratable):
 class ManualRun:
     """Runs `body(self)` as the only testbench of a Simulator over Top(dut); never awaits."""
     def __init__(self, dut, domains, sched_mode="insertion", sched_seed=0, extra_submodules=(),
-                 capture_stdout=False):
-        self.top = Top(dut, domains, extra_submodules)
+                 capture_stdout=False, extra_lines=None):
+        self.top = Top(dut, domains, extra_submodules, extra_lines)
         self.levels = {line: 0 for line in self.top.lines}
         self.sched_mode = sched_mode
         self.sched_seed = sched_seed
